@@ -90,6 +90,9 @@ package onchain
 // blinded); the index announced for a new opening transaction is the index
 // FindVout reports for exactly the transaction the wallet broadcast.
 // ---------------------------------------------------------------------------
+// C07 / C15: number of opening transactions handed to the network by the wallet
+// back ends (LND PublishTransaction, lightningd sendtx, the Liquid wallet)
+//@ ghost bcast int
 //@ ghost liqVoutHex string
 //@ ghost liqVout uint32
 //@ ghost liqVoutOK bool
@@ -122,9 +125,14 @@ package onchain
 //@ sets ghost.liqVoutOK = (result1 == nil)
 
 //@ func (*LiquidOnChain).CreateOpeningTransaction
-//@ property C08
+//@ property C08 C07 C15
 //@ requires l != nil && swapParams != nil && swapParams.BlindingKey != nil
 //@ ensures @C08 vout-of-broadcast-tx: result5 == nil ==> (ghost.liqVoutOK && ghost.liqVoutHex == result0 && ghost.liqVout == result4)
+//@ ensures @C07,C15 success-is-one-broadcast: result5 == nil ==> ghost.bcast == old(ghost.bcast) + 1
+// the one failure after the broadcast: the wallet's own answer does not contain the
+// output it was asked to create (the swap then cancels with the funds locked until
+// the CSV: the environment contract of swap.Wallet excludes this answer)
+//@ ensures @C07,C15 failure-is-no-broadcast-or-wallet-answer-without-the-output: (result5 != nil && ghost.bcast != old(ghost.bcast)) ==> (ghost.bcast == old(ghost.bcast) + 1 && !ghost.liqVoutOK)
 
 // ---------------------------------------------------------------------------
 // C02: the opening script the node constructs is exactly the protocol template
@@ -337,6 +345,11 @@ package onchain
 //@ sets ghost.walletAddr = ite(result1 == nil, result0, old(ghost.walletAddr))
 //@ assigns nothing
 //@ interface wallet.Wallet.SendRawTx
+//@ assigns nothing
+// the Liquid wallet builds, signs and broadcasts in one call: a failure means
+// nothing was broadcast (environment, ASSUMED)
+//@ interface wallet.Wallet.CreateAndBroadcastTransaction
+//@ sets ghost.bcast = ite(result3 == nil, old(ghost.bcast) + 1, old(ghost.bcast))
 //@ assigns nothing
 //@ interface wallet.Wallet.GetFee
 //@ assigns nothing
